@@ -163,6 +163,83 @@ def events_for_case(a, cid, gam, K, ids):
     return evs
 
 
+def forms_and_large(ctx, ids, cid0):
+    """Independent trace: (i) the same small object built from lists / tuples / pandas Series and
+    queried with thresholds given as list / tuple / Series / Python int / 0-d array; (ii) large
+    objects (hundreds to thousands of scores with ties) probed at thresholds on and around scores."""
+    import pandas as pd
+    from score_analysis import Scores
+    rnd = np.random.RandomState(ctx.seed + 303)
+    events, cases = [], []
+    g = gamma.ident()
+    for k in range(24 if ctx.tier == "quick" else 200):
+        npos, nneg = int(rnd.randint(0, 5)), int(rnd.randint(0, 5))
+        a = {"p": [int(x) for x in rnd.randint(0, 4, npos)], "n": [int(x) for x in rnd.randint(0, 4, nneg)],
+             "ep": int(rnd.randint(0, 3)), "en": int(rnd.randint(0, 3)), "sc": ["pos", "neg"][k % 2],
+             "ec": ["pos", "neg"][(k // 2) % 2], "sorted": False}
+        cid = cid0 + len(cases)
+        cases.append(dict(a, kind="forms"))
+        evs = []
+        def ev(op, **kw):
+            e = {"id": next(ids), "cid": cid, "op": op, "exc": "", "conc": "forms"}
+            e.update(kw)
+            evs.append(e)
+            return e
+        wrap = [list, tuple, lambda x: pd.Series(x, dtype=float), lambda x: np.array(x, dtype=float)][k % 4]
+        e = ev("New", h=1, args=a, via="forms", post={"pos": [], "neg": [], "ep": 0, "en": 0, "sc": "pos", "ec": "pos"})
+        try:
+            s = Scores(wrap([float(v) for v in a["p"]]), wrap([float(v) for v in a["n"]]), nb_easy_pos=a["ep"],
+                       nb_easy_neg=a["en"], score_class=a["sc"], equal_class=a["ec"])
+            e["post"] = alpha_obj(s, {float(v): v for v in range(-1, 6)})
+            t2s = [-1, 0, 1, 2, 3, 4, 5, 7]
+            ths = [g.thr(t) for t in t2s]
+            for form in (list(ths), tuple(ths), pd.Series(ths), np.array(ths).reshape(2, 4)):
+                e2 = ev("cm", h=1, t2=t2s, out=[])
+                try:
+                    e2["out"] = cm_rows(s.cm(form).matrix)
+                except Exception as ex:  # noqa
+                    e2["exc"] = f"{type(ex).__name__}: {ex}"[:200]
+            for t2 in (0, 2, 4):                 # Python int and 0-d array thresholds
+                for form in (int(t2 // 2), np.array(float(t2 // 2))):
+                    e2 = ev("cm", h=1, t2=[t2], out=[])
+                    try:
+                        e2["out"] = cm_rows(s.cm(form).matrix)
+                    except Exception as ex:  # noqa
+                        e2["exc"] = f"{type(ex).__name__}: {ex}"[:200]
+        except Exception as ex:  # noqa
+            e["exc"] = f"{type(ex).__name__}: {ex}"[:200]
+        events += evs
+    for k, n in enumerate([130, 1100] if ctx.tier == "quick" else [130, 260, 1100, 2500, 5000]):
+        npos = n // 2 + 7 * k
+        vals = rnd.randint(0, max(8, n // 6), n)           # many ties within and across classes
+        a = {"p": [int(x) for x in vals[:npos]], "n": [int(x) for x in vals[npos:]],
+             "ep": int(rnd.randint(0, 50)), "en": int(rnd.randint(0, 50)), "sc": ["pos", "neg"][k % 2],
+             "ec": ["pos", "neg"][(k // 2) % 2], "sorted": False}
+        cid = cid0 + len(cases)
+        cases.append({"kind": "large", "n": n, "np_seed": ctx.seed + 303})
+        e = {"id": next(ids), "cid": cid, "op": "New", "exc": "", "conc": "large", "h": 1, "args": a, "via": "init",
+             "post": {"pos": [], "neg": [], "ep": 0, "en": 0, "sc": "pos", "ec": "pos"}}
+        events.append(e)
+        try:
+            s = Scores(np.array(a["p"], dtype=float), np.array(a["n"], dtype=float), nb_easy_pos=a["ep"],
+                       nb_easy_neg=a["en"], score_class=a["sc"], equal_class=a["ec"])
+            e["post"] = {"pos": [int(x) for x in s.pos], "neg": [int(x) for x in s.neg], "ep": a["ep"], "en": a["en"],
+                         "sc": a["sc"], "ec": a["ec"]}
+            vs = sorted(set(int(x) for x in vals))
+            pick = [vs[0], vs[len(vs) // 3], vs[len(vs) // 2], vs[-2], vs[-1]]
+            t2s, ths = [], []
+            for v in pick:
+                for d, f in ((-1, "hi"), (0, "mid"), (1, "lo")):
+                    t2s.append(2 * v + d)
+                    ths.append(g.thr(2 * v + d, f))
+            e2 = {"id": next(ids), "cid": cid, "op": "cm", "exc": "", "conc": "large", "h": 1, "t2": t2s, "out": []}
+            events.append(e2)
+            e2["out"] = cm_rows(s.cm(np.array(ths)).matrix)
+        except Exception as ex:  # noqa
+            e["exc"] = f"{type(ex).__name__}: {ex}"[:200]
+    return events, cases
+
+
 def rank_gamma(values):
     """gamma for an object the library produced: abstract value = dense rank."""
     xs = sorted(set(float(v) for v in values))
@@ -273,6 +350,10 @@ def run(ctx: core.Ctx):
     events += sev
     cases = cases + scases
     ctx.extra["library_produced_objects"] = len(scases)
+    fev, fcases = forms_and_large(ctx, ids, len(cases))
+    events += fev
+    cases = cases + fcases
+    ctx.extra["argument_forms_and_large_objects"] = len(fcases)
     for e in events[:3]:
         ctx.sample(e)
     ctx.judge("Trace_C01", events, cases=cases)
@@ -292,6 +373,10 @@ def run(ctx: core.Ctx):
 def replay(ctx: core.Ctx, body):
     core.import_repo()
     a = body["case"]
+    if a.get("kind") in ("forms", "large"):
+        ev_, cs_ = forms_and_large(ctx, iter(range(1, 10**9)), 0)
+        ctx.judge("Trace_C01", ev_, cases=cs_)
+        return ctx.finish()
     if "source" in a:
         ctx.judge("Trace_C01", sample_case_events(a, 0, iter(range(1, 10**9))), cases=[a])
         return ctx.finish()
